@@ -7,10 +7,14 @@ package main
 // Drives the REAL usage webhook handler (internal/usage, registered through the
 // real SetupWebhookWithManager so that the real field-index function and the
 // real handler wiring are used) and the REAL Usage reconciler
-// (internal/controller/apiextensions/usage) over simstore. Reconciles run as
-// parked goroutines that the scenario's schedule releases one API call at a
-// time, so every interleaving at API-call granularity the Lean model
-// distinguishes can be forced deterministically. Admission is invoked by the
+// (internal/controller/apiextensions/usage) over simstore. ONE Reconciler, ONE
+// webhook Handler and ONE client (c19_world.go: informer-cache views for the typed
+// reads, error classes) are built per scenario, as Setup / SetupWebhookWithManager
+// build them once per process. Reconciles run as parked goroutines of that one
+// Reconciler that the scenario's schedule releases one API call at a time, so
+// every interleaving at API-call granularity the Lean model distinguishes - with
+// other reconciles, users, other writers ('er'), the garbage collector, the XR
+// composer - can be forced deterministically. Admission is invoked by the
 // store on Delete exactly as cluster/webhookconfigurations/usage.yaml (parsed at
 // run time) prescribes.
 
